@@ -89,6 +89,8 @@ type ChunkReader struct {
 	// Reset tells the reader that the calling thread keeps no state but the
 	// position between reads (see mcrt.ResetLocal).
 	Reset bool
+	// EOFWithData lets the explorer hand over the final bytes together with io.EOF.
+	EOFWithData bool
 }
 
 func (r *ChunkReader) Read(p []byte) (int, error) {
@@ -115,5 +117,10 @@ func (r *ChunkReader) Read(p []byte) (int, error) {
 	}
 	copy(p, r.Data[r.Pos:r.Pos+n])
 	r.Pos += n
+	// io.Reader allows the last data and io.EOF to come from the same call
+	// (HTTP bodies, decompressors, pipes do it); that answer is one deviation
+	if r.Pos == len(r.Data) && r.EOFWithData && mcrt.Choose(2, "eof-with-last-data") == 1 {
+		return n, io.EOF
+	}
 	return n, nil
 }
